@@ -547,9 +547,10 @@ def diffEnvOld (old : Option EnvRec) (new : EnvRec) : Decision :=
     | .ok true => .upToDate
     | .ok false => .rerun "changed"
 
-/-- `diffEnv` as repaired: equal encodings are up to date without any structural comparison; a comparison
-that exceeds the depth limit means that the environment changed -/
-def diffEnvFixed (old : Option EnvRec) (new : EnvRec) : Decision :=
+/-- `diffEnv` after the repair of D16 only: equal encodings are up to date without any structural comparison, a
+comparison that exceeds the depth limit means that the environment changed — but differing encodings whose
+decodings compare equal were still "up to date" (defect D25) -/
+def diffEnvD16 (old : Option EnvRec) (new : EnvRec) : Decision :=
   match old with
   | none => .rerun "target has never been run"
   | some o =>
@@ -557,6 +558,18 @@ def diffEnvFixed (old : Option EnvRec) (new : EnvRec) : Decision :=
     match equalDepth o.heap new.heap compareLimit o.root new.root with
     | .error _ => .rerun "environment changed"
     | .ok true => .upToDate
+    | .ok false => .rerun "changed"
+
+/-- `diffEnv` as repaired (D16 and D25): up to date exactly when the encodings are equal; the structural
+comparison only chooses the reason that is reported -/
+def diffEnvFixed (old : Option EnvRec) (new : EnvRec) : Decision :=
+  match old with
+  | none => .rerun "target has never been run"
+  | some o =>
+    if o.data = new.data then .upToDate else
+    match equalDepth o.heap new.heap compareLimit o.root new.root with
+    | .error _ => .rerun "environment changed"
+    | .ok true => .rerun "environment changed"
     | .ok false => .rerun "changed"
 
 end Dawn.Env
